@@ -50,3 +50,8 @@ add('C06', 'ENUM+SYS', 'model_checking',
     '(a) check_build_status on every status vector over 1-4 integration branches x bypass source x build key vs the statement; (b) BFS over histories where integration tips change between report and evaluation, monitor: a pull request that entered the queue or was merged directly has SUCCESSFUL on every integration commit, and waiting jobs do not comment.',
     '(a) stub job/host; (b) mock git host, two pull requests, bounded depth (in the evidence).',
     'exhaustive input enumeration + explicit-state BFS with transition monitor', 'DESIGN.md section 5 C06')
+
+add('C02', 'SYS', 'fault_enumeration',
+    'For every job transition of the explored FLOW graphs that mutates the remote: one re-execution per crash boundary between remote-mutating operations (git push, comment, PR creation, decline) and one per single ref rejected by a real update hook; at the interrupted state all-or-none of every user commit over its targets and the C01 chain are checked on the remote; then the event is re-delivered to a fresh Bert-E (documented queue reset if asked) and destination trees are compared with the uninterrupted run.',
+    'crash = crash-stop between operations (a single ref update is atomic in git); delivery is at-least-once, so both runs are settled by re-delivering the event until destinations stop moving; mock git host.',
+    'exhaustive crash-point / rejected-ref enumeration on the real implementation', 'DESIGN.md section 5 C02')
